@@ -45,7 +45,8 @@ def oracle(ctx, stores):
                 v = n.ri.get(dump.val(n.body[4]), "")
                 if v.startswith("a:"):
                     lab = lib.dec(v[2:])
-                    if not any(m.kind == "funcentry" and lab in m.labels for m in ns):
+                    # (a label that names no instruction - the last thing of the program, or only data follows - is on no node)
+                    if any(lab in m.labels for m in ns) and not any(m.kind == "funcentry" and lab in m.labels for m in ns):
                         why = "label %r is installed as interrupt handler at node %d but is not a function" % (lab, n.idx)
         for fid, fn in enumerate(fs):
             for i in fn["nodes"]:
@@ -77,7 +78,7 @@ def oracle(ctx, stores):
 
 
 def run(ctx):
-    generic.run(ctx, "C11", ["new", "markup", "live"], dict(conforming=40, flow=120, random=40, injected=20, handlers=40, cutflow=30),
+    generic.run(ctx, "C11", ["new", "markup", "live"], dict(conforming=40, flow=120, random=40, injected=20, handlers=40, cutflow=30, labeldir=30),
                 oracle=oracle, what="function discovery")
 
 
